@@ -312,7 +312,8 @@ impl<P: Protocol> NetSim<P> {
         let mut config = config.clone();
         config.listen = addr.to_string();
         MockSocket::set_nat(nat);
-        let node = Node::<P>::new(&config, MockSocket::new(addr), MockDevice::new(), None, None);
+        let mut node = Node::<P>::new(&config, MockSocket::new(addr), MockDevice::new(), None, None);
+        node.verif_initialize(); // as run() does before its event loop: own addresses = advertised + socket address
         MockSocket::set_nat(false);
         self.nodes.push(SimNode { addr, node, buf: new_buf(), dead: false });
         self.index.insert(addr, n);
@@ -330,7 +331,8 @@ impl<P: Protocol> NetSim<P> {
         let mut config = config.clone();
         config.listen = addr.to_string();
         MockSocket::set_nat(nat);
-        let node = Node::<P>::new(&config, MockSocket::new(addr), MockDevice::new(), None, None);
+        let mut node = Node::<P>::new(&config, MockSocket::new(addr), MockDevice::new(), None, None);
+        node.verif_initialize();
         MockSocket::set_nat(false);
         self.nodes[i] = SimNode { addr, node, buf: new_buf(), dead: false };
         self.inflight.retain(|d| d.src != addr);
